@@ -1,5 +1,84 @@
-"""R01.6 / R01.7 - type score cache constants and forms (filled in below)."""
+"""R01.6 / R01.7 - type score cache: alphabet constants and window forms."""
+import re
+
+from .. import facts, absint, effects, forms, cfg as cfgmod
+from . import common as C
+
+M = "vaporetto::type_scorer::boundary_scorer_cache::TypeScorerBoundaryCache"
+K = "vaporetto::type_scorer::boundary_scorer_cache::"
+
+
+def cval(w, name):
+    c = w.const(name)
+    return c["value"]["int"] if c and c.get("value") and "int" in c["value"] else None
 
 
 def run(chk, w):
-    return
+    if w.body(M + "::new") is None:
+        chk.ob("R01.6", "cache-module", True, "cache-type-score is not part of this configuration", nontrivial=False)
+        return
+    size, mask, shift = cval(w, K + "ALPHABET_SIZE"), cval(w, K + "ALPHABET_MASK"), cval(w, K + "ALPHABET_SHIFT")
+    maxw = cval(w, "vaporetto::type_scorer::CACHE_MAX_WINDOW_SIZE")
+    ok = None not in (size, mask, shift, maxw)
+    chk.ob("R01.6", "constants-found", ok, "cache constants not found: size=%s mask=%s shift=%s max_window=%s" % (size, mask, shift, maxw))
+    if ok:
+        chk.ob("R01.6", "size=1<<shift", size == 1 << shift, "ALPHABET_SIZE=%d is not 1 << ALPHABET_SHIFT (%d)" % (size, shift), sample={"size": size, "shift": shift, "mask": mask, "max_window": maxw})
+        chk.ob("R01.6", "mask=size-1", mask == size - 1, "ALPHABET_MASK=%d is not ALPHABET_SIZE-1" % mask)
+        discr = {v["name"]: v["discr"] for v in w.adt(C.CT)["variants"]}
+        bad = {k: v for k, v in discr.items() if not (1 <= v <= mask - 1)}
+        chk.ob("R01.6", "type-codes-fit-alphabet", not bad, "character type codes %s do not fit the cache alphabet 1..%d (0 = no character, %d = invalid marker)" % (bad, mask - 1, mask), sample={"codes": discr})
+        chk.ob("R01.6", "table-index-fits-32-bit", shift * 2 * maxw < 32, "ALPHABET_SHIFT*2*CACHE_MAX_WINDOW_SIZE = %d bits does not fit a 32-bit usize" % (shift * 2 * maxw))
+    # ---- R01.7 forms
+    b, it, outs = C.run_fn(w, M + "::new")
+    chk.fn(M + "::new")
+    names, origin = C.iterator_names(b, outs)
+    rn = C.renamer(names)
+    seen = {}
+    for e, o in C.all_calls(outs):
+        nz = forms.Normalizer(it, o, rename=rn)
+        nm = (e[2] or "").split("::")[-1]
+        if nm in ("pow", "from_elem", "get", "find_overlapping_iter", "find_overlapping_no_suffix_iter", "find_iter", "leftmost_find_iter"):
+            seen.setdefault(nm, set()).add(tuple(C.show_arg(nz, a) for a in e[3]))
+    fe = {x[1] for x in seen.get("from_elem", ())}
+    chk.ob("R01.7", "table-size", ("pow(%d, 2*arg2)" % size) in fe if ok else False, "score table sizes %s; expected ALPHABET_SIZE^(2*window)" % sorted(fe), site=C.site(b), sample={"from_elem": sorted(fe)})
+    gets = {x[1] for x in seen.get("get", ())}
+    chk.ob("R01.7", "weight-lookup", any(re.fullmatch(r"2\*arg2 - daachorse::Match::end\(&_\d+\)", g) for g in gets), "weights are looked up at %s; expected 2*window - m.end()" % sorted(gets), site=C.site(b), sample={"get": sorted(gets)})
+    chk.ob("R01.7", "all-matches-iterator", "find_overlapping_iter" in seen and not ({"find_overlapping_no_suffix_iter", "find_iter", "leftmost_find_iter"} & set(seen)),
+           "the cache table is not filled from the all-matches iterator on unmerged weights: %s" % sorted(seen), site=C.site(b))
+    masks = set()
+    for o in outs:
+        if o.kind == "return":
+            v = o.value_at((("L", 0),))
+            if v[0] == "var" and v[2] == "Ok" and v[3] and v[3][0][0] == "agg":
+                nz = forms.Normalizer(it, o, rename=rn)
+                d = dict(v[3][0][2])
+                masks.add((C.show_arg(nz, d.get("sequence_mask")), C.show_arg(nz, d.get("window_size"))))
+    chk.ob("R01.7", "sequence-mask", masks == {("-1 + (1<<%d*arg2)" % (2 * shift), "arg2")} if ok else False, "sequence_mask/window_size stored as %s; expected ((1 << (SHIFT*2*window)) - 1, window)" % sorted(masks), site=C.site(b), sample={"mask": sorted(masks)})
+    # increment functions
+    for fn, want in (("increment_seqid", "BitAnd(BitOr(Shl(arg2, %s), arg3), arg1.sequence_mask)"), ("increment_seqid_without_char", "BitAnd(Shl(arg2, %s), arg1.sequence_mask)")):
+        bi, ii, oi = C.run_fn(w, M + "::" + fn)
+        chk.fn(M + "::" + fn)
+        got = set()
+        for o in oi:
+            if o.kind == "return":
+                got.add(forms.show(forms.Normalizer(ii, o).form(o.value_at((("L", 0),)))))
+        chk.ob("R01.7", fn, got == {want % shift} if ok else False, "%s computes %s; expected %s" % (fn, sorted(got), want % shift), site=C.site(bi), sample={"form": sorted(got)})
+    # add_scores: preload 0..W, lookup char_types[i + W], add get_score(seqid) to every boundary score
+    ba, ia, oa = C.run_fn(w, M + "::add_scores")
+    chk.fn(M + "::add_scores")
+    names, origin = C.iterator_names(ba, oa)
+    rn = C.renamer(names)
+    pre, look, rng = set(), set(), set()
+    for e, o in C.all_calls(oa):
+        nz = forms.Normalizer(ia, o, rename=rn)
+        nm = (e[2] or "").split("::")[-1]
+        if nm == "into_iter" and e[3][0][0] == "agg":
+            pre.add(C.show_arg(nz, e[3][0]))
+        if nm == "get" and "char_types" in C.show_arg(nz, e[3][0]):
+            look.add(C.show_arg(nz, e[3][1]))
+        if "IndexMut" in (e[2] or "") and e[3][1][0] == "agg":
+            rng.add(C.show_arg(nz, e[3][1]))
+    chk.ob("R01.7", "preload-range", pre == {"Range{start: 0, end: arg1.window_size}"}, "the cache pre-loads %s; expected the first `window` character types" % sorted(pre), site=C.site(ba))
+    chk.ob("R01.7", "lookahead", look == {"it0.next()@Some.0", "arg1.window_size + it1.next()@Some.0.0"}, "character types are read at %s; expected j for the pre-load and i + window per boundary" % sorted(look), site=C.site(ba), sample={"reads": sorted(look)})
+    chk.ob("R01.7", "score-range", rng == {"Range{start: arg2.score_padding, end: alloc::vec::Vec::len(&arg2.boundaries) + arg2.score_padding}"},
+           "scores are added to boundary_scores%s; expected [padding .. padding + boundaries.len()]" % sorted(rng), site=C.site(ba))
